@@ -63,6 +63,22 @@ Definition call_x86 (W : Z) (cv : conv) (callee : nat) (args : list argv) (adj :
   (let cleanup := shadow cv + padding + (if caller_cleanup cv then arg_stack_size else 0) in
    if cleanup =? 0 then [] else [AddSp cleanup]).
 
+(* what the x86-64 instruction forms can encode: `push imm` takes a sign-extended 32-bit immediate only, `mov r64, imm` any 64-bit
+   pattern.  The machine below pushes the integer itself, so C17_x86_call speaks about patches whose instructions are encodable;
+   C17_x86_64_stack_argument_beyond_imm32_refuted shows the patch leaves that set (known finding). *)
+Definition encodable_x64 (i : cinsn) : bool :=
+  match i with
+  | PushImm v => (- 2 ^ 31 <=? v) && (v <? 2 ^ 31)
+  | MovImm _ v => (- 2 ^ 63 <=? v) && (v <? 2 ^ 64)
+  | _ => true
+  end.
+Definition arg_fits_x64 (p : argv * option nat) : bool :=
+  match p with
+  | (AInt v, None) => (- 2 ^ 31 <=? v) && (v <? 2 ^ 31)
+  | (AInt v, Some _) => (- 2 ^ 63 <=? v) && (v <? 2 ^ 64)
+  | _ => true
+  end.
+
 (* _load_immediate *)
 Definition load_immediate (r : nat) (v : Z) : list cinsn :=
   if (-65535 <=? v) && (v <=? 65535) then [MovSmall r v]
